@@ -1172,7 +1172,8 @@ Section Inv.
           destruct (shut_down (upd_term sx (Some a)) a) as [b sy] eqn:Ey. apply PFrame_shut_down in Ey.
           destruct b; intros [= _ <-]; rewrite (pf_nid _ _ Ey); apply Ex. }
       split.
-      + eapply InvX_vframe; [constructor; reflexivity|].
+      + match goal with |- InvX _ (upd_tr ?st _ _ _) =>
+          apply (InvX_vframe [] st); [constructor; reflexivity|] end.
         destruct r as [d| |]; try exact I1. apply Inv_upd_fin; try assumption.
         intros a ->. apply (D1 a eq_refl).
       + destruct r; cbn [next_id upd_tr upd_fin]; rewrite N1; cbn; lia.
